@@ -101,6 +101,14 @@ class C14(Check):
             for t in itertools.product(STR_ALPHA, repeat=ln):
                 s = bytes(t)
                 self.check_string(s, ctx)
+        # "any byte string": every one- and two-byte string over all 256 values, and every value at the start, in the
+        # middle and at the end of a longer string
+        for i in range(256):
+            self.check_string(bytes([i]), ctx)
+            for j in range(256):
+                self.check_string(bytes([i, j]), ctx)
+            for s in (bytes([i]) + b"ACgtN", b"AC" + bytes([i]) + b"gtN", b"ACgtN" + bytes([i])):
+                self.check_string(s, ctx)
         # long inputs: lengths around powers of two (block sizes hidden in an implementation)
         unit = b"ACGTRYKMacgtnNBDHV-x"
         for k in range(8, 19):
@@ -299,3 +307,4 @@ class C14(Check):
 CHECK = C14()
 # scope added in later rounds, kept in the evidence text
 CHECK.rule += ' Histories on one object: reverse, append_scaffold (with / without gap) or add a row, reverse again.'
+CHECK.rule += ' Every 1- and 2-byte string over all 256 byte values, and every byte value at the start / middle / end of a longer string.'
